@@ -74,8 +74,10 @@ func (d *Document) BlockStringValueContentBytes(ref int) []byte {
 	// NOTE: This implementation exactly follows the spec.
 	// It likely could be optimized for performance.
 
+	// the escaped block string delimiter \""" stands for """ in the raw value
+	rawValue := bytes.ReplaceAll(d.BlockStringValueContentRawBytes(ref), []byte(`\"""`), []byte(`"""`))
+
 	// split the raw value into lines
-	rawValue := d.BlockStringValueContentRawBytes(ref)
 	lines := splitBytesIntoLines(rawValue)
 
 	// find the common indent size (-1 means no common indent)
